@@ -486,3 +486,30 @@ Proof.
   destruct CAP as ((_ & _ & _ & E) & _). unfold ends_ok in E. rewrite NT in E. rewrite U.
   destruct E as [->|E]; [left; apply skipn_all | right; eapply skipn_nth_error; exact E].
 Qed.
+
+(* ------------------------------------------------------- registration: configure and the default *)
+Lemma configure_unfold : forall calls s,
+  apply_call false (BConfigure calls) s =
+  let c := apply_calls true calls (mkB [] (Some []) None) in
+  mkB (b_services s ++ b_services c) (Some (dget (b_data s) ++ dget (b_data c)))
+      (match b_default c with Some d => Some d | None => b_default s end).
+Proof.
+  intros calls s. cbn [apply_call].
+  assert (E : forall l t, (fix run (l : list bld) (t : bst) : bst :=
+                 match l with [] => t | c :: r => run r (apply_call true c t) end) l t = apply_calls true l t).
+  { induction l as [|c r IH]; intro t; [reflexivity|]. cbn [apply_calls]. apply IH. }
+  rewrite E. reflexivity.
+Qed.
+
+(* App::configure / Scope::configure: a closure that registers no default service keeps the one
+   registered before; one that registers a default replaces it; the services are appended *)
+Theorem configure_default : forall calls s,
+  let c := apply_calls true calls (mkB [] (Some []) None) in
+  let s' := apply_call false (BConfigure calls) s in
+  b_services s' = b_services s ++ b_services c /\
+  (b_default c = None -> b_default s' = b_default s) /\
+  (forall d, b_default c = Some d -> b_default s' = Some d).
+Proof.
+  intros calls s. rewrite configure_unfold. cbn [b_services b_default]. split; [reflexivity|].
+  split; [intros ->; reflexivity | intros d ->; reflexivity].
+Qed.
